@@ -123,6 +123,8 @@ Proof.
     apply Rle_trans with (nth j l 0); [apply IH; lia | apply Hstep; lia].
 Qed.
 
+Lemma last_cons_ne {A} (a : A) l d : l <> [] -> last (a :: l) d = last l d.
+Proof. destruct l; [congruence|reflexivity]. Qed.
 Lemma nth_map_in {A B} (f : A -> B) l i d d' : (i < length l)%nat -> nth i (map f l) d = f (nth i l d').
 Proof. revert i; induction l as [|x r IH]; intros i Hi; cbn in Hi; [lia|]. destruct i; cbn; auto. apply IH; lia. Qed.
 
